@@ -371,9 +371,20 @@ func (m *prattModel) extractRbp(p *Program, f *ssa.Function) rbp {
 	}
 	// the tag must come from *p.previous (the operator just consumed), and an advance/consume
 	// must precede
+	viaHelper := false
 	fromPrev := derivesFromLocal(rc.Call.Args[1], func(x ssa.Value) bool {
 		lf, ok := loadedField(x)
-		return ok && lf.Is("Parser", "previous")
+		if ok && lf.Is("Parser", "previous") {
+			return true
+		}
+		// or the token handed back by a helper that advances once and returns *p.previous
+		if ex, ok := x.(*ssa.Extract); ok && ex.Index == 0 {
+			if hc, ok := ex.Tuple.(*ssa.Call); ok && isConsumedTokenHelper(hc.Call.StaticCallee()) {
+				viaHelper = true
+				return true
+			}
+		}
+		return false
 	})
 	if !fromPrev {
 		return rbp{Kind: rbpNone, Call: call, Why: "UNDECIDED: the operator tag used for the own precedence is not read from Parser.previous"}
@@ -381,6 +392,9 @@ func (m *prattModel) extractRbp(p *Program, f *ssa.Function) rbp {
 	adv := false
 	for _, c := range callsIn(f) {
 		if (staticCalleeIs(c, "(*lang.Parser).advance") || staticCalleeIs(c, "(*lang.Parser).consume")) && dominatesInstr(c, call) {
+			adv = true
+		}
+		if viaHelper && isConsumedTokenHelper(c.Common().StaticCallee()) && dominatesInstr(c, call) {
 			adv = true
 		}
 	}
@@ -468,4 +482,43 @@ func (m *prattModel) absorbs(r int64, p2 int64) bool {
 		return r < p2
 	}
 	return r <= p2
+}
+
+// isConsumedTokenHelper: a Parser method (Token, error) whose only cursor move is one advance() and
+// whose successful result is *p.previous — "consume the operator and hand it back".
+func isConsumedTokenHelper(h *ssa.Function) bool {
+	if h == nil || len(h.Blocks) == 0 || h.Signature.Results().Len() != 2 || !isLangNamed(h.Signature.Results().At(0).Type(), "Token") || !isErrorType(h.Signature.Results().At(1).Type()) {
+		return false
+	}
+	var adv ssa.CallInstruction
+	for _, c := range callsIn(h) {
+		for _, a := range c.Common().Args {
+			if pt, ok := a.Type().(*types.Pointer); ok && isLangNamed(pt.Elem(), "Parser") {
+				if !staticCalleeIs(c, "(*lang.Parser).advance") || adv != nil {
+					return false
+				}
+				adv = c
+			}
+		}
+	}
+	if adv == nil {
+		return false
+	}
+	n := 0
+	for _, r := range returnsOf(h) {
+		res := effectiveResults(r)
+		if !isNilConst(res[1]) {
+			continue
+		}
+		n++
+		ld, ok := res[0].(*ssa.UnOp)
+		if !ok || !dominatesInstr(adv, r) {
+			return false
+		}
+		sf, ok := loadedField(ld.X)
+		if !ok || !sf.Is("Parser", "previous") {
+			return false
+		}
+	}
+	return n > 0
 }
